@@ -372,7 +372,11 @@ func (m *Machine) concretize(t *Term, what string) uint64 {
 		if r != "sat" {
 			break
 		}
-		md := &modelT{vals: mv, memo: map[*Term]uint64{}}
+		cp := make(map[*Term]uint64, len(mv))
+		for k, x := range mv {
+			cp[k] = x
+		}
+		md := &modelT{vals: cp, memo: map[*Term]uint64{}}
 		v, ok := md.eval(t)
 		if !ok {
 			panic(pathAbort{"unknown: cannot evaluate concretized term under the model"})
